@@ -204,3 +204,35 @@ func TestNoFalseRace(t *testing.T) {
 		}
 	}
 }
+
+// TestLockOrderDeadlock: two tasks take two mutexes in opposite order; under some
+// schedules each holds one and spins on the other: must be reported as a deadlock,
+// not run into the step cap.
+func TestLockOrderDeadlock(t *testing.T) {
+	dead, fine := 0, 0
+	for seed := uint64(0); seed < 60; seed++ {
+		var r *Report
+		bubble(t, func() {
+			r = Run(Config{Seed: seed, MaxSteps: 200000}, synctest.Wait, func() {
+				var a, b sync.Mutex
+				var wg sync.WaitGroup
+				wg.Add(2)
+				Go(1, func() { Lock(&a, 2); Yield(9); Lock(&b, 3); b.Unlock(); a.Unlock(); WGDone(&wg, 4) })
+				Go(1, func() { Lock(&b, 5); Yield(9); Lock(&a, 6); a.Unlock(); b.Unlock(); WGDone(&wg, 4) })
+				WGWait(&wg, 7)
+			})
+		})
+		if r.StepCap {
+			t.Fatalf("seed %d ran into the step cap", seed)
+		}
+		if r.Deadlock {
+			dead++
+		} else {
+			fine++
+		}
+	}
+	if dead == 0 || fine == 0 {
+		t.Fatalf("dead=%d fine=%d", dead, fine)
+	}
+	t.Logf("lock-order inversion: %d schedules deadlock, %d do not", dead, fine)
+}
